@@ -7,7 +7,7 @@ import vlib
 from vlib import Infra, log
 
 
-def run_cases(sc, pid, verdict, cases, seed, label, stats, sig_extra=None, env=None):
+def run_cases(sc, pid, verdict, cases, seed, label, stats, sig_extra=None, env=None, sig_fn=None):
     trace = sc.path("trace-%s.ndjson" % label)
     rc, out, err = vlib.run_vdrv(["fs"], stdin=json.dumps({"seed": seed, "cases": cases, "trace": trace}), timeout=3000, env=env)
     if rc != 0:
@@ -45,6 +45,10 @@ def run_cases(sc, pid, verdict, cases, seed, label, stats, sig_extra=None, env=N
                "cmd": ev.get("cmd"), "abort": ev.get("abort"), "err": ev.get("err"), "label": label}
         if sig_extra:
             sig.update(sig_extra(ev, c, ent))
+        if sig_fn:
+            sig = sig_fn(ev, c, ent, [x for x in rows if x.get("case") == ev.get("case")])
+            if sig is None:
+                continue
         detail = "scenario %s (%s): event %s rejected by the contract; config %s; entry %s; commands of the scenario: %s" % (
             ev.get("case"), label, {k: v for k, v in ev.items() if k not in ("keyb", "seq")}, cfg, ent,
             [(x["conn"], x["db"], x["cmd"], x["key"][:24], x["err"]) for x in rows if x["e"] == "cmd" and x["case"] == ev.get("case")][:40])
